@@ -216,6 +216,9 @@ type ObjSpec struct {
 	// controllers, labels of the outer object
 	MetaGen int64
 	MetaRV  string
+	// on controllers: the layers AROUND the pod template (the object's own metadata, a CronJob's job template metadata, a
+	// Job / ReplicaSet / Deployment selector) carry annotations and labels that would matter if they stood on the template
+	OuterMeta bool
 }
 
 type AdmitCase struct {
@@ -281,6 +284,46 @@ func wrapController(kind string, p *corev1.Pod, noTemplate bool) runtime.Object 
 	panic(kind)
 }
 
+// outerMeta decorates everything around the pod template of a workload object with metadata that the checks would read if
+// it stood on the template itself: AppArmor / seccomp annotations for the template's containers (forbidden values where the
+// template is clean, permitted values where the template's own are forbidden), pod-security labels, a windows OS label.
+// None of it reaches the pods the controller creates, so none of it may change a finding.
+func outerMeta(obj runtime.Object, p *corev1.Pod) {
+	ann := map[string]string{"seccomp.security.alpha.kubernetes.io/pod": "unconfined", "kubernetes.io/description": "outer"}
+	for i, c := range append(append([]corev1.Container{}, p.Spec.InitContainers...), p.Spec.Containers...) {
+		k := "container.apparmor.security.beta.kubernetes.io/" + c.Name
+		v := []string{"unconfined", "runtime/default", "localhost/x", "bogus"}[i%4]
+		if tv, ok := p.Annotations[k]; ok && tv != "runtime/default" && !strings.HasPrefix(tv, "localhost/") {
+			v = "runtime/default" // would mask the template's forbidden value
+		}
+		ann[k] = v
+		ann["container.seccomp.security.alpha.kubernetes.io/"+c.Name] = "unconfined"
+	}
+	lab := map[string]string{"kubernetes.io/os": "windows", "pod-security.kubernetes.io/enforce": "privileged", "app": "outer"}
+	if acc, err := apimeta.Accessor(obj); err == nil {
+		acc.SetAnnotations(ann)
+		acc.SetLabels(lab)
+	}
+	switch o := obj.(type) {
+	case *batchv1.CronJob:
+		o.Spec.JobTemplate.ObjectMeta = metav1.ObjectMeta{Name: "job-template", Annotations: ann, Labels: lab}
+		o.Spec.Schedule, o.Spec.JobTemplate.Spec.Selector = "* * * * *", &metav1.LabelSelector{MatchLabels: lab}
+	case *batchv1.Job:
+		o.Spec.Selector = &metav1.LabelSelector{MatchLabels: lab}
+	case *appsv1.Deployment:
+		o.Spec.Selector = &metav1.LabelSelector{MatchLabels: lab}
+	case *appsv1.ReplicaSet:
+		o.Spec.Selector = &metav1.LabelSelector{MatchLabels: lab}
+	case *appsv1.StatefulSet:
+		o.Spec.Selector, o.Spec.ServiceName = &metav1.LabelSelector{MatchLabels: lab}, "svc"
+		o.Spec.VolumeClaimTemplates = []corev1.PersistentVolumeClaim{{ObjectMeta: metav1.ObjectMeta{Name: "data", Annotations: ann}}}
+	case *appsv1.DaemonSet:
+		o.Spec.Selector = &metav1.LabelSelector{MatchLabels: lab}
+	case *corev1.ReplicationController:
+		o.Spec.Selector = lab
+	}
+}
+
 func (o ObjSpec) runtimeObject() runtime.Object {
 	obj := o.bareObject()
 	if obj == nil || (o.MetaGen == 0 && o.MetaRV == "") {
@@ -322,7 +365,11 @@ func (o ObjSpec) bareObject() runtime.Object {
 	case "namespace":
 		return nsObject(o.NSName, o.Labels, int(o.MetaGen)%5)
 	case "controller":
-		return wrapController(o.CtlKind, o.Pod, o.NoTemplate)
+		obj := wrapController(o.CtlKind, o.Pod, o.NoTemplate)
+		if o.OuterMeta {
+			outerMeta(obj, o.Pod)
+		}
+		return obj
 	case "other":
 		return &corev1.ConfigMap{}
 	}
